@@ -5,11 +5,13 @@
 import CijModel.Wire
 import CijModel.Ops.C10
 import CijModel.Ops.C12
+import CijModel.Ops.C01
 open Lean Cij.Wire
 
 def handlers : List Handler := [
   Cij.Ops.C10.handle,
-  Cij.Ops.C12.handle
+  Cij.Ops.C12.handle,
+  Cij.Ops.C01.handle
 ]
 
 def dispatch (line : String) : Json :=
